@@ -74,19 +74,22 @@ structure World where
 /-! ### find_function -/
 
 /-- The `while (high >= low)` loop of find_function on the half-open interval [lo, hi)
-    (`high = hi - 1`, so `mid = (high + low) / 2 = (lo + hi - 1) / 2`). -/
-def bsearch (ft : List FnEntry) (name : NameKey) (lo hi : Nat) : Option Nat :=
-  if _h : lo < hi then
-    let mid := (lo + hi - 1) / 2
-    match ft[mid]? with
-    | none => none
-    | some e =>
-      if name < e.name then bsearch ft name lo mid
-      else if name > e.name then bsearch ft name (mid + 1) hi
-      else some mid
-  else none
-termination_by hi - lo
-decreasing_by all_goals omega
+    (`high = hi - 1`, so `mid = (high + low) / 2 = (lo + hi - 1) / 2`).  `fuel` bounds the iterations; the
+    interval shrinks in every iteration, so `hi - lo` is enough. -/
+def bsearchF (ft : List FnEntry) (name : NameKey) : Nat → Nat → Nat → Option Nat
+  | 0, _, _ => none
+  | fuel + 1, lo, hi =>
+    if lo < hi then
+      let mid := (lo + hi - 1) / 2
+      match ft[mid]? with
+      | none => none
+      | some e =>
+        if name < e.name then bsearchF ft name fuel lo mid
+        else if name > e.name then bsearchF ft name fuel (mid + 1) hi
+        else some mid
+    else none
+
+def bsearch (ft : List FnEntry) (name : NameKey) (lo hi : Nat) : Option Nat := bsearchF ft name (hi - lo) lo hi
 
 /-- what the search of a program's own table says -/
 inductive TableRes where
